@@ -549,5 +549,42 @@ def _always_assigns(stmts, target) -> bool:
     return False
 
 
+class _CanonAug(ast.NodeTransformer):
+    """`T = T op e` (same target spelled on both sides) is read as `T op= e`.  For numbers, bytes and str
+    the two are the same; for a mutable container the augmented form mutates in place and the plain form
+    rebinds - the node is therefore marked (`tsa_from_assign`) and the write-effect analysis does not
+    count it as an in-place mutation."""
+
+    def __init__(self):
+        self.count = 0
+
+    def visit_Assign(self, n: ast.Assign):
+        self.generic_visit(n)
+        if len(n.targets) != 1 or not isinstance(n.value, ast.BinOp):
+            return n
+        t = n.targets[0]
+        ok = isinstance(t, ast.Name) or (isinstance(t, ast.Attribute) and isinstance(t.value, ast.Name)) or \
+            (isinstance(t, ast.Subscript) and isinstance(t.value, ast.Name) and isinstance(t.slice, (ast.Name, ast.Constant)))
+        if not ok:
+            return n
+        left = n.value.left
+        if type(left) is not type(t):
+            return n
+        a = ast.dump(t).replace('Store()', 'Load()')
+        if a != ast.dump(left):
+            return n
+        new = ast.AugAssign(target=t, op=n.value.op, value=n.value.right)
+        new.tsa_from_assign = True
+        self.count += 1
+        return ast.copy_location(new, n)
+
+
 def normalise(modules: dict) -> dict:
-    return Inliner(modules).run()
+    n = 0
+    for m in modules.values():
+        c = _CanonAug()
+        c.visit(m.tree)
+        n += c.count
+    notes = Inliner(modules).run()
+    notes['aug_canonicalised'] = n
+    return notes
